@@ -66,6 +66,9 @@ pub struct RunState {
 
     pub pool: Option<usize>,
     pub page: Option<usize>,
+    /// run the next pool execution with segment threads and preemption
+    pub preempt: bool,
+    pub preemptions: u64,
 
     pub token: Option<CancelToken>,
     pub cancel_plan: CancelPlan,
@@ -91,6 +94,8 @@ impl RunState {
             counters: BTreeMap::new(),
             pool: None,
             page: None,
+            preempt: false,
+            preemptions: 0,
             token: None,
             cancel_plan: CancelPlan::Never,
             polls: 0,
@@ -144,6 +149,7 @@ impl RunState {
         self.segs = 0;
         self.stop_unseen_items = 0;
         self.stopped = false;
+        self.preemptions = 0;
         self.sched_hash = mix(
             0xabcdef,
             pool.map(|p| p as u64 + 1).unwrap_or(0),
@@ -204,6 +210,11 @@ impl RunState {
                 self.log(site, a, b);
             }
             "exec_begin" | "exec_end" => self.log(site, a, b),
+            "preempt" => {
+                self.preemptions += 1;
+                self.sched_hash = mix(self.sched_hash, mix(0x9EE, mix(a, self.seq)));
+                self.log(site, a, b);
+            }
             _ => {
                 // probes
                 self.count(site);
@@ -229,6 +240,9 @@ impl fidget_core::verif::Sim for SimHandle {
     }
     fn page_size(&self) -> Option<usize> {
         self.0.borrow().page
+    }
+    fn preemptive(&self) -> bool {
+        self.0.borrow().preempt
     }
 }
 
